@@ -59,7 +59,7 @@ VARIABLES
   wr,       \* chunks written of the current copy / lock
   mem,      \* the creator's in-memory record (files copied so far)
   snap,     \* HISTORY: content of each data file at the moment its copy was started
-  donebk,   \* HISTORY: <<bk, lock>> when a creation first completed
+  donebk,   \* HISTORY: <<bk, lock>> when the backup first became visible (listed by the manager)
   crashes, creates, nops, nmod,
   lastop,   \* HISTORY: [op, t, o, res, code] of the last action
   prevop,   \* HISTORY: lastop of the previous restore/remodel/modify/delete
@@ -124,21 +124,23 @@ Land(p, opname, code) ==
    /\ pc' = (IF p \in {"fin", "failed", "refused"} THEN "idle" ELSE p)
    /\ lastop' = Op(opname, <<>>, 0,
                    IF p = "fin" THEN "created" ELSE IF p \in {"failed", "refused"} THEN p ELSE "running", code)
-   /\ donebk' = (IF p = "fin" /\ donebk = <<>> THEN <<bk', lock'>> ELSE donebk)
+   /\ donebk' = (IF donebk = <<>> /\ Scan(dirs', bk', lock').res = "lists" THEN <<bk', lock'>> ELSE donebk)
 Log(arg) == hist' = Append(hist, [op |-> lastop'.op, t |-> lastop'.t, o |-> lastop'.o, arg |-> arg,
                                    res |-> lastop'.res, code |-> lastop'.code,
                                    data |-> data', bk |-> bk', lock |-> lock', dirs |-> dirs',
                                    scan |-> Scan(dirs', bk', lock'), pc |-> pc'])
 FailCode(p, ds) == IF p = "failed" THEN Scan(ds, bk, lock).code ELSE ""
 
-Init == /\ tree \in Trees
-        /\ data = [i \in 1..Len(tree.files) |-> Orig(i)]
-        /\ bk = [i \in 1..Len(tree.files) |-> Absent]
-        /\ snap = [i \in 1..Len(tree.files) |-> Absent]
+InitFor(tr) ==
+        /\ tree = tr
+        /\ data = [i \in 1..Len(tr.files) |-> Orig(i)]
+        /\ bk = [i \in 1..Len(tr.files) |-> Absent]
+        /\ snap = [i \in 1..Len(tr.files) |-> Absent]
         /\ lock = [k |-> -1, rec |-> <<>>]
         /\ dirs = {} /\ pc = "idle" /\ sel = <<>> /\ fi = 1 /\ wr = 0 /\ mem = <<>>
         /\ donebk = <<>> /\ crashes = 0 /\ creates = 0 /\ nops = 0 /\ nmod = 0
         /\ lastop = NoOp /\ prevop = NoOp /\ pre = data /\ hist = <<>>
+Init == \E tr \in Trees : InitFor(tr)
 
 \* a run of run_remodel_backup.main starts: walk the tree, construct the manager (up to its first mkdir)
 Start == /\ pc = "idle" /\ creates < MaxCreate
@@ -304,7 +306,7 @@ TypeOK == /\ \A i \in Idx : IsCont(data[i]) /\ IsCont(bk[i])
 
 \* whenever the manager would list the backup, every recorded file is present, complete and the content backed up
 NeverHalfValid == Listed => \A i \in Range(Now.rec) : bk[i].k = Chunks /\ bk[i] = snap[i]
-\* once created, a backup never changes, whatever runs afterwards (incl. creating again under the same name)
+\* once listed, a backup never changes, whatever runs afterwards (incl. creating again under the same name)
 NoOverwrite == donebk # <<>> => <<bk, lock>> = donebk
 CreatedIsListed == donebk # <<>> => Listed
 \* restoring everything gives back the backed-up bytes, whatever happened to the data files
